@@ -27,6 +27,7 @@ func init() {
 type c12Case struct {
 	F   string `json:"f"`
 	K   string `json:"k"`
+	Log string `json:"log"`
 	Out struct {
 		O  string `json:"o"`
 		St []int  `json:"st"`
@@ -130,6 +131,7 @@ func faultResponder(p *peer, ci, ri int, req *wireMsg, w io.Writer) bool {
 
 type c12Env struct {
 	direct, via, mitm, viaRefused, viaTimeout *fwd
+	byLog                                     map[string][3]*fwd // --log-http mode -> direct, via, mitm
 	peers                                     []*peer
 }
 
@@ -199,6 +201,12 @@ func newC12Env() *c12Env {
 	env.direct = mk(fwdCfg{Name: "fwd", Localhost: "allow"})
 	env.via = mk(fwdCfg{Name: "fwd", Localhost: "allow", Upstream: "http://" + addrA})
 	env.mitm = mk(fwdCfg{Name: "fwd", Localhost: "allow", MITM: true})
+	env.byLog = map[string][3]*fwd{}
+	for _, m := range []string{"headers", "body"} {
+		env.byLog[m] = [3]*fwd{mk(fwdCfg{Name: "fwd", Localhost: "allow", LogHTTP: m}),
+			mk(fwdCfg{Name: "fwd", Localhost: "allow", Upstream: "http://" + addrA, LogHTTP: m}),
+			mk(fwdCfg{Name: "fwd", Localhost: "allow", MITM: true, LogHTTP: m})}
+	}
 	env.viaRefused = mk(fwdCfg{Name: "fwd", Localhost: "allow", Upstream: "http://refused.test:8080"})
 	env.viaTimeout = mk(fwdCfg{Name: "fwd", Localhost: "allow", Upstream: "http://timeout.test:8080"})
 	return env
@@ -210,6 +218,11 @@ func (env *c12Env) close() {
 	env.mitm.stop()
 	env.viaRefused.stop()
 	env.viaTimeout.stop()
+	for _, fs := range env.byLog {
+		for _, f := range fs {
+			f.stop()
+		}
+	}
 	for _, p := range env.peers {
 		p.close()
 	}
@@ -274,7 +287,7 @@ func c12Run(e *env) {
 }
 
 func (env *c12Env) faultCase(c c12Case, k int, rejf *fwd) map[string]any {
-	res := map[string]any{"ok": true, "f": c.F, "k": c.K, "cut": k, "expect": c.Out.O}
+	res := map[string]any{"ok": true, "f": c.F, "k": c.K, "cut": k, "expect": c.Out.O, "log": c.Log}
 	fail := func(why string) {
 		if res["ok"] == true {
 			res["ok"], res["why"] = false, why
@@ -282,7 +295,7 @@ func (env *c12Env) faultCase(c c12Case, k int, rejf *fwd) map[string]any {
 	}
 	f := env.direct
 	// a private name per case: upstream connections are never shared between cases
-	host := fmt.Sprintf("c%s-%s-%d.origin.test", strings.ReplaceAll(c.F, "_", ""), strings.ToLower(c.K), k)
+	host := fmt.Sprintf("c%s-%s-%s%d.origin.test", strings.ReplaceAll(c.F, "_", ""), strings.ToLower(c.K), c.Log, k)
 	switch c.F {
 	case "dial_refused":
 		host = "refused.test"
@@ -349,6 +362,16 @@ func (env *c12Env) faultCase(c c12Case, k int, rejf *fwd) map[string]any {
 	case "MITMGET":
 		f = env.mitm
 		inner = true
+	}
+	if fs, ok := env.byLog[c.Log]; ok {
+		switch f {
+		case env.direct:
+			f = fs[0]
+		case env.via:
+			f = fs[1]
+		case env.mitm:
+			f = fs[2]
+		}
 	}
 	cl, err := dialRaw(f.addr)
 	if err != nil {
